@@ -4,3 +4,4 @@ pub mod rng;
 pub mod report;
 pub mod classify;
 pub mod wrapper;
+pub mod lockmon;
